@@ -352,6 +352,7 @@ func mergeLocalReplaces(base, local *modfile.File) (*modfile.File, error) {
 		Custom:   base.Custom,
 		Deps:     deps,
 	}
+	eff.Description = base.Description
 	if !hasReplace(eff) {
 		return nil, nil
 	}
@@ -418,6 +419,7 @@ func seedReplacementTargets(ctx context.Context, localMF *modfile.File, rsPub *m
 		Custom:   localMF.Custom,
 		Deps:     deps,
 	}
+	seeded.Description = localMF.Description
 	if err := seeded.InitNonStrict(); err != nil {
 		return nil, err
 	}
@@ -555,6 +557,7 @@ func modfileFromRequirements(old *modfile.File, rs *modrequirements.Requirements
 		Source:   old.Source,
 		Custom:   old.Custom,
 	}
+	mf.Description = old.Description
 	var replByPath map[string]string
 	if replSource != nil {
 		replByPath = replaceByPath(replSource)
